@@ -113,6 +113,11 @@ func (w *vWorld) proof(site string, want *types.DIDDocument, other *types.DIDDoc
 		return vProof{sig: vNondetBytes(site+".garbage", 70)}
 	}
 	k := vPickKey(vNondetBool(site+".byK1"), w.k0, w.k1)
+	if vNondetBool(site + ".overJSONForm") {
+		// a genuine signature by the key holder over another encoding of the same content
+		// (the document's canonical JSON, which carries no sequence): must never be accepted
+		return vProof{sig: vSignBytes(k, want.GetSignBytes())}
+	}
 	d := want
 	if vNondetBool(site + ".overOtherContent") {
 		d = other
